@@ -159,6 +159,31 @@ def Obs.check (o : Obs) : List String :=
           else decide (potential y o.before < potential y afterOld))
      then ["rank"] else [])
 
+/-- the application's classes, checked on a trace: `cls` gives, for the entries of the changeset, the smallest
+    `prioritize(side, path)` over their current paths.  `stale`: a pending entry's stored priority is neither its class plus a number of
+    punts nor a punt count (Props/C17Prio.lean `Tracks`); `unaged`: the attempted entry's paths are all in non-negative classes
+    and no side's change has aged (Props/C17Prio.lean `nonneg_class_ages`); `classorder`: another eligible entry that
+    still carries exactly its class has a strictly smaller class than the attempted one, which carries exactly its own -/
+def Obs.checkCls (o : Obs) (cls : List (Nat × Rat)) : List String :=
+  let clsOf (id : Nat) : Option Rat := (cls.find? (·.1 == id)).map (·.2)
+  let nat (q : Rat) : Bool := q.den == 1 && decide (0 ≤ q)
+  -- PriorityCurrent (Props/C17Prio.lean `Tracks`): the stored priority is the class plus punts, or a punt count
+  (if o.before.any (fun y => match clsOf y.id with
+        | some c => !(nat (y.priority - c) || nat y.priority)
+        | none => false) then ["stale"] else []) ++
+  match o.attempted.bind (findId o.before) with
+  | none => []
+  | some x =>
+    match clsOf x.id with
+    | none => []
+    | some cx =>
+      (if cx ≥ 0 && !(sideAged x.l.changed o.earlier || sideAged x.r.changed o.earlier) then ["unaged"] else []) ++
+      (if x.priority == cx && (o.before.any (fun y => y.id != x.id && eligible y o.earlier 0 &&
+            (match clsOf y.id with
+             | some cy => y.priority == cy && decide (cy < cx)
+             | none => false)))
+       then ["classorder"] else [])
+
 /-- weight that entered the queue between two calls, as seen from `y` -/
 def arrivals (y : Entry) (prevAfter nextBefore : List Entry) : Nat :=
   (nextBefore.map (fun z =>
